@@ -20,6 +20,8 @@ def run(ctx):
     cs = [charfam.concretize(s, rng) for s in uni[: (150 if quick else 2000)]]
     cs += charfam.seeded_small(ctx, rng, 40 if quick else 500) + charfam.seeded_flag_trees(ctx, rng, 8 if quick else 60)
     cfiles, ccells, cleaves = charfam.run_scenarios(ctx, cs, "c06c")
+    sf, sc_, sl = charfam.run_sequences(ctx, charfam.collision_sequences(), "c06")      # process-wide memo collisions (entropy of the wrong recipe)
+    cfiles, ccells, cleaves = cfiles + sf, ccells + sc_, cleaves + sl
     cverd, cdec = charfam.validate(ctx, cfiles)
     ws = [wlfam.tree_scen(rng, uniform_only=(i % 3 != 0), uncap_prob=0.6, budget=3500 if quick else 15000) for i in range(80 if quick else 900)]
     ws += wlfam.directed_trees(rng)
